@@ -228,6 +228,10 @@ class Analysis:
         # projections
         fields = [e for e in pl[1:] if isinstance(e, str) and e.startswith(".")]
         lty = f.local_ty(l)
+        if l == 1 and "{closure" in f.key and fields and depth < 30:
+            v = self._eval_upvar(f, pl, depth, stack)
+            if v is not None:
+                return v
         if len(pl) == 2 and pl[1].startswith(".0:") and lty.startswith("("):
             # value half of a checked-arithmetic pair
             return self.eval_local(f, l, pos, env, depth, stack, pair=True)
@@ -239,6 +243,37 @@ class Analysis:
                 if inv is not None:
                     return inv
         return None
+
+    def _eval_upvar(self, f, pl, depth, stack):
+        """value of a captured variable read inside a closure: evaluated in the parent function at the
+        point where the closure is created (captures by value, or by shared reference to a local)."""
+        from .patterns import closure_site
+        site = closure_site(self.p, f)
+        if not site:
+            return None
+        parent, st = site
+        rest = [e for e in pl[1:] if e != "*" or True]
+        # shape: ["*"]? ".k:" ["*"]* (no further fields / indexes)
+        i = 0
+        if i < len(rest) and rest[i] == "*":
+            i += 1
+        if i >= len(rest) or not (isinstance(rest[i], str) and rest[i].startswith(".")):
+            return None
+        k = int(rest[i][1:].split(":")[0])
+        derefs = rest[i + 1:]
+        if any(e != "*" for e in derefs) or k >= len(st["rv"][2]):
+            return None
+        cap = st["rv"][2][k]
+        pos = tuple(st["_pos"])
+        if not derefs:
+            return self.eval_op(parent, cap, pos, None, depth + 1, stack)
+        cl = op_local(cap)
+        if cl is None or len(derefs) > 1:
+            return None
+        ds = parent.defs(cl)
+        if len(ds) != 1 or ds[0]["kind"] != "assign" or ds[0]["rv"][0] != "ref" or ds[0]["rv"][1] != "shared":
+            return None
+        return self.eval_place(parent, ds[0]["rv"][2], pos, None, depth + 1, stack)
 
     def _owner_adt(self, f, pl):
         """ADT key owning the last field projection of the place (best effort via local type)."""
